@@ -19,7 +19,7 @@ const (
 	ptBetween  uint8 = 21 // between two operations of a transaction body
 	ptInRead   uint8 = 22 // between two column reads inside a row callback (read latch held)
 	ptTxnEdge  uint8 = 23 // between two transactions (nothing held)
-	ptDiskIO   uint8 = 24 // unused by the scheduler, reserved
+	ptDiskIO   uint8 = 24 // inside a Write of the snapshot destination (a slow disk: whatever the writing thread holds stays held)
 	ptLinkWait uint8 = 25 // applier waiting for a delayed commit
 	ptIdle     uint8 = 26 // the vacuum goroutine is back at its ticker
 	ptClock    uint8 = 27 // the clock pseudo-thread: picking it advances the fake clock
@@ -31,7 +31,7 @@ const (
 var pointName = map[uint8]string{
 	1: "BeforeRLock", 2: "BeforeLock", 3: "AfterUnlock", 4: "MidCommit1", 5: "MidCommit2", 6: "MidCommit3",
 	7: "AfterReserve", 8: "KeyChecked", 9: "SnapshotPhase", 10: "IndexBuild",
-	ptStart: "start", ptBetween: "betweenOps", ptInRead: "inRead", ptTxnEdge: "txnEdge", ptLinkWait: "linkWait", ptIdle: "vacuumIdle", ptClock: "clockAdvance", ptInMerge: "inMergeFn", ptMuLock: "beforeMutex",
+	ptStart: "start", ptBetween: "betweenOps", ptInRead: "inRead", ptTxnEdge: "txnEdge", ptLinkWait: "linkWait", ptIdle: "vacuumIdle", ptClock: "clockAdvance", ptInMerge: "inMergeFn", ptMuLock: "beforeMutex", ptDiskIO: "diskWrite",
 }
 
 // Point is where a simulated thread is parked.
